@@ -1761,6 +1761,172 @@ end DpapiNg.Gen
     return out
 
 
+# ---------------------------------------------------------------------------------------------
+# Pack plan of DPAPINGBlob.pack: `x = Cls(kw=<expr>, …)` bindings (nested constructor calls, `self.f`, `self.f.pack()`, class OID
+# constants, integer literals, lists, `a if blob_in_envelope else b`), `writer = ASN1Writer(); x.pack(writer)` rounds and the final
+# `b"".join([...])` become a `List BPlan.Step × List BPlan.CExpr`; the dataclass schemas (init fields in declaration order) of the CMS
+# classes are regenerated as a table.  `Proofs/BPlan.lean` proves `Blob.blobPack` is the interpretation of the plan.
+KERNELS += [
+    dict(name="BPlanBlob", props=["C06", "C01"], file="_blob.py", func="DPAPINGBlob.pack", kind="bplan", loc=("bplan",), model="Blob.blobPackPlan",
+         imports=["Proofs.BPlan"], typ="List BPlan.Step × List BPlan.CExpr"),
+    dict(name="BPlanSchema", props=["C06"], file="_pkcs7.py", func="", kind="bschema", loc=("bschema",), model="Blob.schemaTable",
+         imports=["Proofs.BPlan"], typ="List (String × List String)"),
+]
+_CMS_CLASSES = ["AlgorithmIdentifier", "ContentInfo", "EncryptedContentInfo", "EnvelopedData", "KEKIdentifier", "KEKRecipientInfo", "OtherKeyAttribute"]
+
+
+def _init_fields(clsnode):
+    out = []
+    for f in clsnode.body:
+        if isinstance(f, ast.AnnAssign) and isinstance(f.target, ast.Name) and "ClassVar" not in ast.unparse(f.annotation):
+            if isinstance(f.value, ast.Call) and any(kw.arg == "init" and isinstance(kw.value, ast.Constant) and kw.value.value is False for kw in f.value.keywords):
+                continue
+            out.append(f.target.id)
+    return out
+
+
+def _class_consts(tree):
+    """ClassName.CONST → dotted-OID string constants of every class in a module"""
+    out = {}
+    for n in tree.body:
+        if isinstance(n, ast.ClassDef):
+            for st in n.body:
+                if isinstance(st, ast.Assign) and len(st.targets) == 1 and isinstance(st.targets[0], ast.Name) and isinstance(st.value, ast.Constant) \
+                        and isinstance(st.value.value, str):
+                    out[f"{n.name}.{st.targets[0].id}"] = st.value.value
+    return out
+
+
+def bplan(fn, blob_tree, cms_tree):
+    body = [st for st in fn.body if not (isinstance(st, ast.Expr) and isinstance(st.value, ast.Constant))]
+    params = [a.arg for a in fn.args.args]
+    if params != ["self", "blob_in_envelope"]:
+        raise Unsupported(f"pack parameters {params}")
+    consts = dict(_class_consts(cms_tree), **_class_consts(blob_tree))
+    classes = {n.name: n for n in cms_tree.body if isinstance(n, ast.ClassDef)}
+    var_cls, last_packed = {}, [None]
+
+    def expr(e):
+        t = ast.unparse(e)
+        if isinstance(e, ast.Constant) and isinstance(e.value, int) and not isinstance(e.value, bool):
+            return f".int {e.value}" if e.value >= 0 else f".int ({e.value})"
+        if isinstance(e, ast.Constant) and e.value == b"":
+            return ".emptyBytes"
+        if t in consts:
+            return f".oid {_oid_arcs(consts[t])}"
+        if t.startswith("self.") and t.count(".") == 1 and t[5:].isidentifier():
+            return f'.field "{t[5:]}"'
+        if t.startswith("self.") and t.endswith(".pack()") and t.count(".") == 2:
+            return f'.packOf "{t[5:-7]}"'
+        if t == "writer.get_data()":
+            if last_packed[0] is None:
+                raise Unsupported("writer.get_data() before any pack")
+            return f'.buf "{last_packed[0]}"'
+        if isinstance(e, ast.Name) and e.id in var_cls:
+            return f'.var "{e.id}"'
+        if isinstance(e, ast.List):
+            return ".list [" + ", ".join(expr(x) for x in e.elts) + "]"
+        if isinstance(e, ast.IfExp) and ast.unparse(e.test) == "blob_in_envelope":
+            return f".ifLayout ({expr(e.body)}) ({expr(e.orelse)})"
+        if isinstance(e, ast.Call) and isinstance(e.func, ast.Name) and e.func.id in classes:
+            order = _init_fields(classes[e.func.id])
+            pairs = []
+            for j, a in enumerate(e.args):
+                if j >= len(order):
+                    raise Unsupported(f"too many positional arguments to {e.func.id}")
+                pairs.append((order[j], expr(a)))
+            for kw in e.keywords:
+                if kw.arg is None or kw.arg not in order or kw.arg in [k for k, _ in pairs]:
+                    raise Unsupported(f"keyword {kw.arg} of {e.func.id}")
+                pairs.append((kw.arg, expr(kw.value)))
+            return f'.obj "{e.func.id}" [' + ", ".join(f'("{k}", {v})' for k, v in pairs) + "]"
+        raise Unsupported(f"expression {t[:60]}")
+    steps, i = [], 0
+    while i < len(body) - 1:
+        st = body[i]
+        if isinstance(st, ast.Assign) and len(st.targets) == 1 and isinstance(st.targets[0], ast.Name):
+            x, v = st.targets[0].id, st.value
+            if ast.unparse(v) == "ASN1Writer()" and x == "writer":
+                nxt = body[i + 1]
+                if isinstance(nxt, ast.Expr) and isinstance(nxt.value, ast.Call) and isinstance(nxt.value.func, ast.Attribute) and nxt.value.func.attr == "pack" \
+                        and isinstance(nxt.value.func.value, ast.Name) and nxt.value.func.value.id in var_cls and [ast.unparse(a) for a in nxt.value.args] == ["writer"] \
+                        and not nxt.value.keywords:
+                    y = nxt.value.func.value.id
+                    steps.append(f'.packTo "{y}" "{var_cls[y]}"')
+                    last_packed[0] = y
+                    i += 2
+                    continue
+                if last_packed[0] is None and not any("writer" in ast.unparse(b) for b in body[i + 1:i + 2]):
+                    i += 1          # a writer that is replaced before anything is written to it
+                    continue
+                raise Unsupported("writer = ASN1Writer() not followed by <local>.pack(writer)")
+            if isinstance(v, ast.Call) and isinstance(v.func, ast.Name) and v.func.id in classes:
+                steps.append(f'.bind "{x}" ({expr(v)})')
+                var_cls[x] = v.func.id
+                i += 1
+                continue
+        raise Unsupported(f"statement {ast.unparse(st)[:60]}")
+    ret = body[-1]
+    if not (isinstance(ret, ast.Return) and isinstance(ret.value, ast.Call) and ast.unparse(ret.value.func) == "b''.join"
+            and len(ret.value.args) == 1 and isinstance(ret.value.args[0], ast.List)):
+        raise Unsupported("pack does not end with `return b''.join([...])`")
+    return steps, [expr(e) for e in ret.value.args[0].elts]
+
+
+def generate_bplan(k: dict) -> dict:
+    out = {"name": k["name"], "file": k["file"], "func": k["func"] or "<module>"}
+    try:
+        blob_tree = ast.parse(open(os.path.join(SRC, "_blob.py")).read())
+        cms_tree = ast.parse(open(os.path.join(SRC, "_pkcs7.py")).read())
+        if k["kind"] == "bplan":
+            fn = find_function(blob_tree, k["func"])
+            out["line"] = fn.lineno
+            steps, join = bplan(fn, blob_tree, cms_tree)
+            body = "([" + ",\n    ".join(steps) + "],\n   [" + ", ".join(join) + "])"
+            out["python"] = f"{k['func']}: pack plan of {len(steps)} step(s)"
+            typ, opens, tactic = "List Step × List CExpr", "open DpapiNg DpapiNg.BPlan", "rfl"
+        else:
+            classes = {n.name: n for n in cms_tree.body if isinstance(n, ast.ClassDef)}
+            rows = []
+            for c in _CMS_CLASSES:
+                if c not in classes:
+                    raise Unsupported(f"class {c} not found")
+                rows.append(f'("{c}", [' + ", ".join(f'"{f}"' for f in _init_fields(classes[c])) + "])")
+            body = "[" + ",\n   ".join(rows) + "]"
+            out["line"] = 1
+            out["python"] = f"dataclass init fields of {len(rows)} CMS classes"
+            typ, opens, tactic = "List (String × List String)", "open DpapiNg", "decide"
+    except (Unsupported, OSError, SyntaxError, ValueError, LookupError) as e:
+        out["status"] = "unsupported"
+        out["reason"] = f"{type(e).__name__}: {e}"
+        p = os.path.join(GEN_DIR, k["name"] + ".lean")
+        if os.path.exists(p):
+            os.remove(p)
+        return out
+    name = k["name"]
+    lean = f"""-- GENERATED by harness/extract.py from src/dpapi_ng/{k['file']}:{out['line']} ({out['func']}) — do not edit.
+import DpapiNg.Proofs.BPlan
+namespace DpapiNg.Gen
+{opens}
+
+def {name} : {typ} :=
+  {body}
+
+theorem {name}_eq : {name} = {k['model']} := by
+  {tactic}
+
+end DpapiNg.Gen
+"""
+    os.makedirs(GEN_DIR, exist_ok=True)
+    p = os.path.join(GEN_DIR, name + ".lean")
+    old = open(p).read() if os.path.exists(p) else None
+    if old != lean:
+        with open(p, "w") as f:
+            f.write(lean)
+    out.update(status="generated", lean_path=p, lean_def=body.replace("\n    ", " ").replace("\n   ", " "), module=f"DpapiNg.Gen.{name}", sha=hashlib.sha256(lean.encode()).hexdigest()[:16])
+    return out
+
+
 def register(k: dict) -> None:
     KERNELS.append(k)
 
@@ -1787,6 +1953,8 @@ def generate(k: dict) -> dict:
         return generate_flayout(k)
     if k.get("kind") == "callkw":
         return generate_callkw(k)
+    if k.get("kind") in ("bplan", "bschema"):
+        return generate_bplan(k)
     path = os.path.join(SRC, k["file"])
     out = {"name": k["name"], "file": k["file"], "func": k["func"]}
     try:
